@@ -104,6 +104,7 @@ func runC01(c *Ctx) {
 	c.heartBeatEveryBeat("R11", "R12", "R14")
 	c.lockDirectoryStampedOnceItExists("R15")
 	c.heartBeatStampsEveryBeat("R17")
+	c.lockDirectoryAgedAsListed("R18")
 	// R16: "as long as the holder's heartbeat keeps running": the heartbeat lives on the context the acquire was given. The
 	// lock's own take-over path acquires by calling TryLock again: under a context that very function derives and cancels
 	// on its way out, the holder it has just made falls silent at once (the obligation C16/Y19, for the lock itself).
@@ -836,4 +837,58 @@ func (c *Ctx) heartBeatStampsEveryBeat(rule string) {
 	round := pathPruned(hb, first, stamp, func(in ssa.Instruction) bool { return in == first }, nil)
 	c.check(round == nil, rule, key, c.pos(hb.Pos()), "every round of the loop reaches the Chtimes of the heartbeat file",
 		"a round of the heartbeat loop can go by without the times of the heartbeat file being set (the call was made conditional — on the backend, on the outcome of the write — or moved into a helper that does not always make it): the write alone needs a file handle, so a holder that cannot open files for more than two periods (its process at the limit of open files) stops refreshing a heartbeat it could have refreshed, and its live lock is reported stale, released and taken over")
+}
+
+// lockDirectoryAgedAsListed (R18, evaluated as S16 for C17): an empty lock directory is judged by its own times — the
+// times of the directory that was just found empty. They are read after the listing: read before it, a release and a new
+// acquire may lie between the two reads; the listing then shows the new holder's directory, still empty before its first
+// heartbeat, and it is judged with the times of the old one — a lock acquired an instant ago is 'stale', released by a
+// cleaner that only releases stale locks, and acquired by a third party while its holder holds it.
+func (c *Ctx) lockDirectoryAgedAsListed(rule string) {
+	c.rule(rule, "in IsStale the times by which an empty lock directory is judged are read (StatTimes) after the listing that found it empty, not before it", 1)
+	f := c.fnOpt(fsPkgRel, "(*RemoteLockFile).IsStale")
+	isStaleF := c.fnOpt(fsPkgRel, "isStale")
+	if f == nil || isStaleF == nil {
+		return
+	}
+	c.FuncsSeen[fname(f)] = true
+	var listings []*ssa.Call
+	allInstrs(f, func(in ssa.Instruction) {
+		if cl, ok := in.(*ssa.Call); ok {
+			if nm, _, isFs := fsMethodCall(cl); isFs && (nm == "Ls" || nm == "Lls" || nm == "LsWithExclusionPatterns" || nm == "Glob" || nm == "FindAll") {
+				listings = append(listings, cl)
+			}
+		}
+	})
+	key := fname(f) + "/empty-directory-aged-as-listed"
+	bad := ""
+	n := 0
+	allInstrs(f, func(in ssa.Instruction) {
+		cl, ok := in.(*ssa.Call)
+		if !ok || staticCallee(&cl.Call) != isStaleF || len(cl.Call.Args) == 0 {
+			return
+		}
+		for _, s := range sources(cl.Call.Args[0], deriveOpts{}) {
+			ex, ok := s.(*ssa.Extract)
+			if !ok {
+				continue
+			}
+			st, ok := ex.Tuple.(*ssa.Call)
+			if !ok || !strings.HasSuffix(calleeFull(&st.Call), ".StatTimes") {
+				continue
+			}
+			n++
+			for _, ls := range listings {
+				if !dominates(ls, st) {
+					bad = c.ipos(st) + " (listing at " + c.ipos(ls) + ")"
+				}
+			}
+		}
+	})
+	if n == 0 || len(listings) == 0 {
+		c.info(rule, key, "-", "IsStale does not judge a directory it lists by that directory's own times")
+		return
+	}
+	c.check(bad == "", rule, key, c.pos(f.Pos()), "the directory's times are read after it was listed",
+		"the times an empty lock directory is judged by are read at "+bad+", before the directory is listed: between the two reads the holder may release and another acquire; the listing then shows the new holder's directory — still empty before its first heartbeat — and it is judged by the age of the old one: a live lock is reported stale, ReleaseIfStale (the cache's CleanEntry) removes it and a third party acquires while its holder holds it")
 }
